@@ -47,13 +47,22 @@ type ABCfg struct {
 	MaxSteps    int     `json:"max_steps"`
 	CloseMix    int     `json:"close_mix"` // 0 shutdown-only, 1 also Close, 2 also abrupt close
 	Stalls      bool    `json:"reader_stalls"`
-	DropOnly    bool    `json:"drop_only"`                     // C02's fault model: drops of non-RST packets only, no network delay
-	ServerFirst bool    `json:"server_speaks_first,omitempty"` // the client writes nothing and does not shut down before it has read the server's end-of-stream
-	DropIDs     []int   `json:"drop_frames,omitempty"`         // fault positions chosen up front: the n-th emissions of the run are lost
+	Gated       bool    `json:"writers_wait_for_writability,omitempty"` // a writer that found the send buffer full writes again only after the stack has signalled EventOut
+	DropOnly    bool    `json:"drop_only"`                              // C02's fault model: drops of non-RST packets only, no network delay
+	ServerFirst bool    `json:"server_speaks_first,omitempty"`          // the client writes nothing and does not shut down before it has read the server's end-of-stream
+	DropIDs     []int   `json:"drop_frames,omitempty"`                  // fault positions chosen up front: the n-th emissions of the run are lost
 	MeasureK    bool    `json:"-"`
 }
 
+// abOut is the writability callback of one side: the stack says "there is room again".
+type abOut struct{ s *abSide }
+
+func (o abOut) Callback(*waiter.Entry) { o.s.outSeen = true }
+
 type abSide struct {
+	outEntry      waiter.Entry
+	outSeen       bool // EventOut has been signalled since the last Write that found the send buffer full
+	wblocked      bool // the last Write found the send buffer full (returned would-block or took only part)
 	ep            tcpip.Endpoint
 	wq            *waiter.Queue
 	accepted      int64 // bytes accepted by Write
@@ -106,10 +115,11 @@ type abConn struct {
 	rstStale   [2]int // ... whose sequence number was below SND.NXT
 	rstLost    [2]int // ... dropped by the wire
 	rstDeliv   [2]int
-	lastWin    [2]int  // window field of the last segment delivered TO this side (-1 none)
-	sentWin    [2]int  // window field of the last non-RST segment emitted BY this side (-1 none)
-	lateAck    uint32  // seq of the last bare ACK delivered to B before the app accepted, minus (client ISS+1)
-	winDropped [2]bool // the last window-bearing segment sent to this side was dropped
+	lastWin    [2]int   // window field of the last segment delivered TO this side (-1 none)
+	sentWin    [2]int   // window field of the last non-RST segment emitted BY this side (-1 none)
+	lateAck    uint32   // seq of the last bare ACK delivered to B before the app accepted, minus (client ISS+1)
+	lateAcks   []uint32 // ... of every distinct one
+	winDropped [2]bool  // the last window-bearing segment sent to this side was dropped
 }
 
 type ABWorld struct {
@@ -189,6 +199,7 @@ func GenABCfg(rng *sim.Rand, tier string, prop string) ABCfg {
 	}
 	c.CloseMix = rng.Pick(5, 3, 2)
 	c.Stalls = rng.Chance(0.3)
+	c.Gated = rng.Chance(0.5)
 	if rng.Chance(0.03) {
 		// scaled windows that really close: receive buffers above 64 KB whose size is no multiple of the
 		// scale unit, transfers several times as long, readers that pause
@@ -369,6 +380,7 @@ func (w *ABWorld) connect(ci int) {
 	}
 	e := ep.Connect(tcpip.FullAddress{Addr: w.addr(1), Port: abPort})
 	c.s[0] = &abSide{ep: ep, wq: wq, target: int64(w.Cfg.Bytes[ci*2])}
+	w.watchOut(c.s[0])
 	if e != tcpip.ErrConnectStarted && e != nil {
 		c.connErr = e
 		c.s[0].hardErr = e
@@ -399,12 +411,19 @@ func (w *ABWorld) accept() {
 				return
 			}
 			c.s[1] = &abSide{ep: ep, wq: wq, target: int64(w.Cfg.Bytes[c.id*2+1])}
+			w.watchOut(c.s[1])
 			w.Settle()
 			return
 		}
 	}
 	ep.Close()
 	w.Settle()
+}
+
+// watchOut registers the side's writability callback (the entry stays registered for the life of the run).
+func (w *ABWorld) watchOut(s *abSide) {
+	s.outEntry.Callback = abOut{s}
+	s.wq.EventRegister(&s.outEntry, waiter.EventOut)
 }
 
 func isHard(e *tcpip.Error) bool {
@@ -453,11 +472,24 @@ func (w *ABWorld) write(ci, si, n int) {
 	if n <= 0 {
 		return
 	}
+	if w.Cfg.Gated && s.wblocked {
+		// this application sleeps until the stack signals writability; it does not poll
+		if !s.outSeen {
+			w.Probes["writes_waiting_for_writability"]++
+			return
+		}
+		s.wblocked = false
+		w.Probes["writers_woken_by_writability"]++
+	}
 	buf := make([]byte, n)
 	for i := range buf {
 		buf[i] = abByte(w.seed, ci, si, s.accepted+int64(i))
 	}
+	s.outSeen = false
 	got, _, err := s.ep.Write(tcpip.SlicePayload(buf), tcpip.WriteOptions{})
+	if err == tcpip.ErrWouldBlock || (err == nil && int(got) < n) {
+		s.wblocked = true
+	}
 	s.accepted += int64(got)
 	if isHard(err) {
 		s.hardErr = err
@@ -489,18 +521,22 @@ func (w *ABWorld) read(ci, si int) bool {
 	for i, b := range v {
 		if want := abByte(w.seed, ci, d, s.read+int64(i)); b != want {
 			sig := ""
-			if si == 1 && s.read == 0 && c.lateAck > 0 {
-				// does the reader's stream equal the writer's, shifted by the bytes the
-				// client had sent before the bare ACK that created this connection?
-				shifted := true
-				for j, x := range v {
-					if x != abByte(w.seed, ci, d, int64(c.lateAck)+int64(j)) {
-						shifted = false
+			if si == 1 && s.read == 0 {
+				// does the reader's stream equal the writer's, shifted by the bytes the client had sent before
+				// the bare ACK that created this connection? (any of the bare ACKs delivered before the accept -
+				// duplicates and stale copies among them - may have been the one)
+				for _, late := range c.lateAcks {
+					shifted := late > 0
+					for j, x := range v {
+						if x != abByte(w.seed, ci, d, int64(late)+int64(j)) {
+							shifted = false
+							break
+						}
+					}
+					if shifted {
+						sig = fmt.Sprintf(" [passive side accepted from a late bare ACK taken as SYN cookie: stream starts %d byte(s) late]", late)
 						break
 					}
-				}
-				if shifted {
-					sig = fmt.Sprintf(" [passive side accepted from a late bare ACK taken as SYN cookie: stream starts %d byte(s) late]", c.lateAck)
 				}
 			}
 			w.Fail("stream-corrupt", sig, "connection %d: reader side %d got byte 0x%02x at stream offset %d, writer side %d wrote 0x%02x there (bytes lost, duplicated, reordered or invented)%s", ci, si, b, s.read+int64(i), d, want, sig)
@@ -1073,6 +1109,15 @@ func (w *ABWorld) onDeliver(f *Frame) {
 	}
 	if side == 0 && c.s[1] == nil && seg.Flags == 0x10 && len(seg.Payload) == 0 && c.haveISS[0] {
 		c.lateAck = seg.Seq - (c.iss[0] + 1)
+		seen := false
+		for _, x := range c.lateAcks {
+			if x == c.lateAck {
+				seen = true
+			}
+		}
+		if !seen && len(c.lateAcks) < 64 {
+			c.lateAcks = append(c.lateAcks, c.lateAck)
+		}
 	}
 }
 
